@@ -72,6 +72,7 @@ func simpleDoc(r *sim.Rand) pdfw.DocSpec {
 	sp.BlankPages = r.Pct(30)
 	sp.Headings = r.Pct(40)
 	sp.Superscripts = r.Pct(25)
+	sp.GState = r.Pct(40)
 	if r.Pct(35) {
 		sp.Running = 1 + r.Intn(5)
 	}
